@@ -1,4 +1,5 @@
 import Bpmn.Props.C03
+import Bpmn.Props.C03Current
 import Bpmn.Props.EngineSteps
 open Bpmn.Props.C03
 #print axioms C03_holds
@@ -11,3 +12,6 @@ open Bpmn.Props.C03
 #print axioms Bpmn.Props.EngineSteps.par_step_releases_all
 #print axioms Bpmn.Props.EngineSteps.par_join_waits
 #print axioms Bpmn.Props.EngineSteps.par_join_fires
+#print axioms Bpmn.Props.C03Current.translated
+#print axioms Bpmn.Props.C03Current.reply_is_source
+#print axioms Bpmn.Props.C03Current.all_handed_flows_unconditional
